@@ -98,6 +98,16 @@ UNITS.append(unit("add", 0))
 UNITS.append(unit("sample", 0))
 UNITS.append(unit("clear", 9))
 
+# ---------------------------------------------------------------- a PDF owner: AtlasStateSpace::clear keeps chartPDF_ in step with the charts
+UNITS.append(dict(name="c12_user_atlas_clear", template="C12/atlas_clear.c", mode="plain", entry="h_atlas_clear", flags=["--bounds-check", "--pointer-check", "--unsigned-overflow-check"], unwind=5, level="bounded", bound="<= 3 anchor charts",
+                  backend="minisat", timeout=300, functions=["ompl::base::AtlasStateSpace::clear"],
+                  sources=[dict(name="clear", file="src/ompl/base/spaces/constraint/src/AtlasStateSpace.cpp", sig=r"void ompl::base::AtlasStateSpace::clear\(\)", loops={"allow_uncontracted": True},
+                                rules=[(r"for \(auto chart : charts_\)\s*delete chart;", "DELETE_ALL_CHARTS();", 0), (r"charts_\.clear\(\);", "charts_n = 0;", 0),
+                                       (r"std::vector<NNElement> nnList;\s*chartNN_\.list\(nnList\);\s*for \(auto &chart : nnList\)\s*\{.*?\}", "FREE_NN_STATES();", 0, __import__("re").S),
+                                       (r"chartNN_\.clear\(\);", "nn_n = 0;", 0), (r"chartPDF_\.clear\(\);", "pdf_n = 0; pdf_dangling = 0;", 0),
+                                       (r"for \(auto anchor : anchors_\)\s*newChart\(anchor\);", "for (unsigned a_ = 0; a_ < anchors_n; ++a_) NEW_CHART();", 0), (r"ConstrainedStateSpace::clear\(\);", "", 0)])],
+                  canaries=[dict(name="neighbours_kept", where="body:clear", rx=r"nn_n = 0;", repl="")]))
+
 ASSUMPTIONS = [
     "weights are exact integers (machine arithmetic treated as mathematical): floating-point rounding drift of the running sums after long edit histories is NOT decided",
     "r*total is modelled as ANY exact value in [0,total] (0 for r==0, total for r==1, strictly inside for 0<r<1, total>0); with all weights even, odd values stand for non-integer reals",
